@@ -154,18 +154,44 @@ def trim_diag(out):
     return "\n".join(res)[:2500]
 
 
-def check_point(name, feats, tdir):
+def check_point(name, feats, tdir, tf=""):
     env = dict(os.environ)
     env["CARGO_TARGET_DIR"] = tdir
     env["CARGO_NET_OFFLINE"] = "true"
-    env["RUSTFLAGS"] = CHECK_RUSTFLAGS
+    env["RUSTFLAGS"] = CHECK_RUSTFLAGS + ((" -C target-feature=" + tf) if tf else "")
     cmd = ["cargo", "check", "--offline", "-p", name, "--no-default-features"]
     if feats:
         cmd += ["--features", ",".join(feats)]
     t0 = time.time()
     rc, out = vlib.sh(cmd, cwd=vlib.REPO, env=env, timeout=1200)
-    return {"crate": name, "features": feats, "builds": rc == 0, "seconds": round(time.time() - t0, 1),
-            "cmd": " ".join(cmd), "diagnostics": "" if rc == 0 else trim_diag(out)}
+    return {"crate": name, "features": feats, "target_features": tf, "builds": rc == 0, "seconds": round(time.time() - t0, 1),
+            "cmd": " ".join(cmd), "rustflags": env["RUSTFLAGS"], "diagnostics": "" if rc == 0 else trim_diag(out)}
+
+
+# Compile-time target features select code as cargo features do (cfg(target_feature = ..) in
+# hashes/groestl/src/compressor.rs and in the no-std dispatch of ppv-lite86): the no-std points of
+# those crates are also checked under each of these static target-feature sets (G3 was such a point).
+TF_GRID = ["+ssse3", "+aes", "+ssse3,+aes", "+ssse3,+sse4.1", "+avx", "+avx2"]
+TF_CRATES = {"groestl-aesni": [[]], "ppv-lite86": [[], ["simd"]]}
+
+
+def check_target_feature_points(crates):
+    names = {c["name"] for c in crates}
+    jobs = []
+    for name, pts in TF_CRATES.items():
+        if name not in names:
+            continue
+        for tf in TF_GRID:
+            jobs.append((name, pts, tf, os.path.join(TARGET_CHECK, "%s-tf-%s" % (name, tf.replace("+", "").replace(",", "_").replace(".", "")))))
+
+    def lane(job):
+        name, pts, tf, tdir = job
+        return [check_point(name, p, tdir, tf) for p in pts]
+    res = []
+    with ThreadPoolExecutor(max_workers=vlib.NCPU) as ex:
+        for r in ex.map(lane, jobs):
+            res += r
+    return res
 
 
 def check_all_points(crates, lanes_for=4):
@@ -431,6 +457,7 @@ def run(ctx):
     # (b) buildability of every point
     t0 = time.time()
     results = check_all_points(crates)
+    tf_results = check_target_feature_points(crates)
     kp = known_points(ctx)
     failing_unknown, reproduced, gone = [], {}, {}
     for r in results:
@@ -452,9 +479,15 @@ def run(ctx):
         ctx.log("finding no longer reproduces: %s now builds at %d listed point(s): %s" % (fid, len(pts), pts[:4]))
     for fid, pts in reproduced.items():
         ctx.log("open finding %s reproduced at %d point(s); those points are skipped, nothing broader" % (fid, len(pts)))
+    for r in tf_results:
+        r["status"] = "builds" if r["builds"] else "DOES NOT BUILD"
+        if not r["builds"]:
+            failing_unknown.append(r)
+    results = results + tf_results
     for r in failing_unknown[:6]:
         ctx.violation({"kind": "feature-point-does-not-build", "crate": r["crate"], "features": r["features"],
-                       "command": "cd %s && RUSTFLAGS='%s' %s" % (vlib.REPO, CHECK_RUSTFLAGS, r["cmd"]),
+                       "target_features": r.get("target_features", ""),
+                       "command": "cd %s && RUSTFLAGS='%s' %s" % (vlib.REPO, r.get("rustflags", CHECK_RUSTFLAGS), r["cmd"]),
                        "diagnostics": r["diagnostics"],
                        "also_failing": [[x["crate"], x["features"]] for x in failing_unknown[:40]]})
     ctx.log("cargo check: %d points, %d build, %d known-finding, %d fail (%.0fs)" % (
@@ -464,7 +497,7 @@ def run(ctx):
     ctx.cov["lattice"] = [{k: c[k] for k in ("name", "path", "named", "implicit", "default", "implies")} | {"points": len(c["points"])}
                           for c in crates]
     ctx.cov["lattice_points_total"] = npts
-    ctx.cov["cargo_check_points"] = [{k: r[k] for k in ("crate", "features", "status", "seconds")} for r in results]
+    ctx.cov["cargo_check_points"] = [{k: r.get(k, "") for k in ("crate", "features", "target_features", "status", "seconds")} for r in results]
 
     # (c) result equality
     report, observed = equality_stage(ctx, crates)
